@@ -115,6 +115,22 @@ func c13Scenario(c *Ctx, idx int, r *Rng, extra func(l, m, cs string)) (mline, m
 					f.blob = append(canonicalPointer(sha(content), 5), bytes.Repeat([]byte("x"), 1100)...) // look-alike, too long
 				}
 			}
+			if len(cur) > 0 && r.Chance(15) && nme != "sub/deep/x.raw" {
+				// the SAME blob at a second path (a copied file): one pointer blob, two names — one of them
+				// may be excluded by lfs.fetchexclude while the other is not
+				var ks []string
+				for k := range cur {
+					ks = append(ks, k)
+				}
+				sort.Strings(ks)
+				src := cur[ks[r.Intn(len(ks))]]
+				if src.path != "sub/deep/x.raw" {
+					cp := *src
+					cp.path = nme
+					f = &cp
+					c.R.Count("fsck.shared-blob")
+				}
+			}
 			if nme == "sub/deep/x.raw" {
 				f.kind, f.blob, f.oid = "raw", content, ""
 			}
@@ -258,7 +274,13 @@ func c13Scenario(c *Ctx, idx int, r *Rng, extra func(l, m, cs string)) (mline, m
 	}
 	var refs []refExp
 	seenRef := map[string]bool{}
+	// D49: rev-list names every blob once, by the first path it meets; a pointer blob that sits at an
+	// excluded path AND at a path that is not excluded may be skipped altogether
+	alsoExcluded := map[string]bool{}
 	addRef := func(f *c13File) {
+		if f.kind != "raw" && f.oid != "" && exclude != "" && c05Excluded(exclude, f.path) {
+			alsoExcluded[f.oid] = true
+		}
 		if f.kind == "raw" || c05Excluded(exclude, f.path) {
 			return
 		}
@@ -354,6 +376,8 @@ func c13Scenario(c *Ctx, idx int, r *Rng, extra func(l, m, cs string)) (mline, m
 	}
 	expectFail := false
 	onlyNestedExpected := true // the only expected problem is the D21 path
+	onlySharedExpected := true // the only expected problems are objects that D49 hides
+	d49 := map[string]bool{}   // bad objects that fsck skipped because their blob's first path is excluded
 	// objects
 	if objectsOn {
 		for _, rf := range refs {
@@ -361,8 +385,16 @@ func c13Scenario(c *Ctx, idx int, r *Rng, extra func(l, m, cs string)) (mline, m
 			if bad {
 				expectFail = true
 				onlyNestedExpected = false
+				if !alsoExcluded[rf.oid] {
+					onlySharedExpected = false
+				}
 				if !named(objLines, rf.oid) {
-					fail("fsck did not name a "+rf.state+" object that the checked revisions reference", rf.oid[:12]+" | "+clip(out, 300), "")
+					sig := ""
+					if alsoExcluded[rf.oid] {
+						sig = "D49"
+						d49[rf.oid] = true
+					}
+					fail("fsck did not name a "+rf.state+" object that the checked revisions reference", rf.oid[:12]+" | "+clip(out, 300), sig)
 				}
 			} else if named(objLines, rf.oid) {
 				fail("fsck named an intact object as damaged", rf.oid[:12]+" | "+clip(out, 300), "")
@@ -384,6 +416,7 @@ func c13Scenario(c *Ctx, idx int, r *Rng, extra func(l, m, cs string)) (mline, m
 				continue
 			}
 			expectFail = true // lfs.fetchexclude excuses missing OBJECTS; a tracked path holding raw content is still reported
+			onlySharedExpected = false
 			if !strings.HasPrefix(path, "sub/deep/") {
 				onlyNestedExpected = false
 			}
@@ -400,6 +433,7 @@ func c13Scenario(c *Ctx, idx int, r *Rng, extra func(l, m, cs string)) (mline, m
 				// find its path for the exclusion test
 				expectFail = true
 				onlyNestedExpected = false
+				onlySharedExpected = false
 				if !named(ptrLines, t.id) {
 					fail("fsck --pointers did not name a non-canonical pointer", t.id[:12]+" | "+clip(out, 300), "")
 				}
@@ -424,6 +458,9 @@ func c13Scenario(c *Ctx, idx int, r *Rng, extra func(l, m, cs string)) (mline, m
 		sig := ""
 		if nested && onlyNestedExpected {
 			sig = "D21"
+		}
+		if onlySharedExpected && len(d49) > 0 {
+			sig = "D49"
 		}
 		fail("fsck exited 0 although the checked revisions have damaged objects or bad pointers", clip(out, 300), sig)
 	}
@@ -451,6 +488,9 @@ func c13Scenario(c *Ctx, idx int, r *Rng, extra func(l, m, cs string)) (mline, m
 			continue
 		}
 		checked := seenRef[oid]
+		if checked && d49[oid] {
+			continue // not reported (D49, judged above): nothing to move
+		}
 		if checked {
 			if still {
 				fail("a corrupt object that fsck reported is still in place after the repairing run", oid[:12], "")
@@ -519,7 +559,13 @@ func c13Scenario(c *Ctx, idx int, r *Rng, extra func(l, m, cs string)) (mline, m
 				}
 			}
 			// the second run in the model's vocabulary: the same model, whatever lfs/bad already holds
-			if !nested {
+			sharedBad := false
+			for _, rf := range refs {
+				if alsoExcluded[rf.oid] && rf.state != "intact" {
+					sharedBad = true
+				}
+			}
+			if !nested && !sharedBad {
 				isAgain := map[string]bool{}
 				for _, o := range again {
 					isAgain[o] = true
@@ -580,6 +626,13 @@ func c13Scenario(c *Ctx, idx int, r *Rng, extra func(l, m, cs string)) (mline, m
 	}
 	if nested {
 		return
+	}
+	for _, rf := range refs {
+		if alsoExcluded[rf.oid] && rf.state != "intact" {
+			// which of a blob's paths rev-list reports is outside the set-level model (D49): judged directly only
+			c.R.Count("fsck.model-skipped-shared-excluded")
+			return
+		}
 	}
 	for _, t := range tracked {
 		path := t.id
